@@ -304,7 +304,15 @@ func (p *Parser) noPrefixParseFnError(t token.Type) {
 // parse Expression Statement
 func (p *Parser) parseExpressionStatement() *ast.ExpressionStatement {
 	stmt := &ast.ExpressionStatement{Token: p.curToken}
-	stmt.Expression = p.parseExpression(LOWEST)
+	switch p.curToken.Type {
+	case token.IF, token.WHILE, token.FOR, token.FOREACH, token.SWITCH, token.FUNCTION:
+		// A statement which ends in a block is complete at the closing
+		// brace: what follows is the next statement, not an operator
+		// (or a call, or an index) applied to the block.
+		stmt.Expression = p.parseExpression(INDEX)
+	default:
+		stmt.Expression = p.parseExpression(LOWEST)
+	}
 	for p.peekTokenIs(token.SEMICOLON) {
 		p.nextToken()
 	}
